@@ -213,11 +213,156 @@ func (r *recorded) fresh(c *fw.Ctx) (protocol.Handler, *sim.DRBG, error) {
 }
 
 func runC17(c *fw.Ctx) {
+	if c.S.Draw(8, "c17-shared") == 7 {
+		runC17SharedShare(c)
+		return
+	}
 	if c.S.Draw(2, "c17-mode") == 0 {
 		runC17Sequence(c)
 		return
 	}
 	runC17Concurrent(c)
+}
+
+// ---------------- (c) several sessions of one party that share one key share ----------------
+//
+// One party signs in several sessions at once, every session with its own handler on its own
+// goroutine, all started from the SAME config object. The handlers share the points and scalars of
+// that config: whatever a session does with them (hashing, marshalling) must not write to them.
+func runC17SharedShare(c *fw.Ctx) {
+	p := []scen.Proto{scen.FROST, scen.FROSTTaproot, scen.Doerner}[c.S.Draw(3, "proto")]
+	n, t := 2, 1
+	if p != scen.Doerner {
+		n = 2 + c.S.Draw(2, "n")
+		t = 1 + c.S.Draw(n-1, "t")
+	}
+	ids := scen.IDPool[:n]
+	m := scen.PrepMaterial(c, p, ids, t, "prep")
+	target := ids[c.S.Draw(n, "target")]
+	S := 2 + c.S.Draw(4, "sessions")
+	type sess struct {
+		tag     string
+		mk      scen.Mk
+		inbound []*protocol.Message
+	}
+	var ss []*sess
+	for i := 0; i < S; i++ {
+		tag := fmt.Sprintf("s%d", i)
+		msg := scen.DrawMsg(c)
+		sid := []byte(c.Label("sid", tag))
+		// reference run on a deep copy: records what the target's peers send in this session
+		ref := scen.NewSession(c, tag, m.Clone().SignMk(ids[:t+1+c.S.Draw(n-t, "signers")], msg, sid, scen.SignPlain), nil)
+		_ = ref
+		signers := ref.Order
+		isSigner := false
+		for _, id := range signers {
+			if id == target {
+				isSigner = true
+			}
+		}
+		if !isSigner {
+			continue
+		}
+		ref.Net.Policy = sim.FIFO{}
+		ref.Net.Run()
+		c.Res.Steps += ref.Net.Steps
+		x := &sess{tag: tag}
+		for _, e := range ref.Nodes[target].Recv {
+			x.inbound = append(x.inbound, e.Decode())
+		}
+		// the live handler is built from the SHARED material (no copy)
+		x.mk = m.SignMk(signers, msg, sid, scen.SignPlain)[target]
+		ss = append(ss, x)
+	}
+	if len(ss) < 2 {
+		return
+	}
+	c.Res.Desc = fmt.Sprintf("shared-share %s n=%d t=%d target=%q sessions=%d", p, n, t, target, len(ss))
+	c.Res.DistinctID = c.Res.Desc + "|" + c.S.TraceHash()
+	c.Res.NonTrivial = true
+	c.Fault("concurrent_sessions_on_one_key_share", len(ss))
+	// handlers are built one after the other, each with the randomness of its reference run
+	hs := make([]protocol.Handler, len(ss))
+	for i, x := range ss {
+		rng := sim.NewDRBG(c.Label(x.tag, target))
+		old := c.R.Use(rng)
+		h, err := x.mk()
+		c.R.Use(old)
+		if err != nil || h == nil {
+			c.Violate("shared-share/start-refused/"+p.String(), "session %s of %q could not start: %v", x.tag, target, err)
+			return
+		}
+		hs[i] = h
+	}
+	c.R.Use(sim.NewDRBG(c.Label("shared", target)))
+	defer c.R.Use(nil)
+	_ = newRaceReports()
+	var wg sync.WaitGroup
+	var mu sync.Mutex
+	var panics []string
+	start := make(chan struct{})
+	for i := range ss {
+		wg.Add(1)
+		go func(h protocol.Handler, in []*protocol.Message) {
+			defer wg.Done()
+			defer func() {
+				if pv := recover(); pv != nil {
+					mu.Lock()
+					panics = append(panics, fmt.Sprintf("%v\n%s", pv, trim5(string(debug.Stack()))))
+					mu.Unlock()
+				}
+			}()
+			ch := h.Listen()
+			<-start
+			for _, msg := range in {
+				mm := *msg
+				h.Accept(&mm)
+				for drained := false; !drained; {
+					select {
+					case _, ok := <-ch:
+						if !ok {
+							drained = true
+						}
+					default:
+						drained = true
+					}
+				}
+			}
+		}(hs[i], ss[i].inbound)
+	}
+	close(start)
+	done := make(chan struct{})
+	go func() { wg.Wait(); close(done) }()
+	select {
+	case <-done:
+	case <-time.After(90 * time.Second):
+		c.Violate("shared-share/hang/"+p.String(), "concurrent sessions of one party did not return within 90 s (%s)", c.Res.Desc)
+		return
+	}
+	for _, pn := range panics {
+		first := pn
+		if i := strings.Index(first, "\n"); i > 0 {
+			first = first[:i]
+		}
+		c.Violate("shared-share/panic/"+p.String()+"/"+first, "a session panicked while others of the same party ran concurrently: %s\n  %s", pn, c.Res.Desc)
+	}
+	for _, r := range newRaceReports() {
+		c.Violate("shared-share/data-race/"+raceSig(r), "the race detector reported a data race between concurrent sessions that share one key share (%s)\n%s", c.Res.Desc, trimS(r, 3000))
+	}
+	if len(c.Res.Violations) > 0 {
+		return
+	}
+	for i, h := range hs {
+		if p == scen.Doerner {
+			break // its later rounds draw randomness, which concurrent sessions take from one stream here: the recorded replies need not fit
+		}
+		v, err := h.Result()
+		if got := classify(v, err); got != "value" {
+			c.Violate("shared-share/session-did-not-complete/"+p.String(), "session %s of %q, run concurrently with %d others on the same key share, ended %q (%v) although it was handed exactly the messages of its fault-free run", ss[i].tag, target, len(hs)-1, got, err)
+			return
+		}
+	}
+	c.Res.Sample = map[string]interface{}{"desc": c.Res.Desc}
 }
 
 // ---------------- (a) call sequences ----------------
